@@ -117,7 +117,16 @@ def h_thumbprint(ctx):
         return Outcome("non-canonical-x-refused", [], nontrivial=(label, how, private, order))
     if not k.ok:
         return Outcome("import-failed", [viol(f"{kty} key cannot be built via {how}", f"{label}: {k.exc!r}")], nontrivial=(label, how, private))
-    tp = call(k.value.thumbprint)
+    # the module-level RFC 7638 function is public API too: its caller names the required members, in whatever order it has them
+    by = ctx.choose("computed_by", ["key.thumbprint()", "rfc7638.thumbprint(jwk, members as RFC 7638 3.2 lists them)", "rfc7638.thumbprint(jwk, members in the JWK's own order)",
+                                    "rfc7638.thumbprint(jwk, members in reverse lexicographic order)"] if how == "dict" and order == "given" and not extras else ["key.thumbprint()"])
+    if by == "key.thumbprint()":
+        tp = call(k.value.thumbprint)
+    else:
+        from joserfc.rfc7638 import thumbprint as module_thumbprint
+        req = {"oct": ["kty", "k"], "RSA": ["kty", "n", "e"], "EC": ["kty", "crv", "x", "y"], "OKP": ["kty", "crv", "x"]}[kty]
+        fields = req if "3.2" in by else ([m for m in src if m in req] if "own order" in by else sorted(req, reverse=True))
+        tp = call(module_thumbprint, dict(src), list(fields), digest)
     vs = []
     cls = f"{kty}{'-' + jwk['crv'] if 'crv' in jwk else ''}"
     if not tp.ok:
@@ -129,7 +138,7 @@ def h_thumbprint(ctx):
             lz = " (leading-zero coordinate)" if any(b64.dec(pub[m])[0] == 0 for m in ("x", "y")) else ""
         vs.append(viol(f"thumbprint differs from RFC 7638 value: {cls} via {how}{lz}",
                        f"{label} private={private} digest={digest} extras={extras}: got {tp.value}, RFC 7638 gives {want}"))
-    return Outcome(f"{'match' if not vs else 'mismatch'}:{cls}:{how}", vs, nontrivial=(label, how, private))
+    return Outcome(f"{'match' if not vs else 'mismatch'}:{cls}:{how}", vs, nontrivial=(label, how, private, by))
 
 
 class _Labelled(str):
@@ -153,7 +162,8 @@ class KidModel:
     fresh_import = False
     MENU = ["thumbprint", "ensure_kid", "kid", "as_dict", "as_dict_public", "as_dict_private", "as_dict_kid_param",
             "keyset_wrap", "keyset_as_dict", "sign_with_set", "mutate_export", "second_key_shared_params", "check_use",
-            "keyset_wrap_behind_sibling_with_same_kid", "import_key_set_with_same_kid_sibling"]
+            "keyset_wrap_behind_sibling_with_same_kid", "import_key_set_with_same_kid_sibling",
+            "continue_with_copy.copy", "continue_with_copy.deepcopy", "continue_with_pickle"]
 
     def __init__(self, fixture):
         self.fixture = fixture
@@ -291,6 +301,14 @@ class KidModel:
             out["k2_want"] = pk if pk is not None else rjwk.thumbprint(rjwk.public_of(other))
         elif op == "check_use":
             key.check_use("sig")
+        elif op.startswith("continue_with_"):
+            # the application goes on with a copy of the key (copy / pickle protocols): the same key, the same kid
+            from .common import handed_over
+            cp = handed_over(key, op[len("continue_with_"):])
+            if cp is not None:
+                key = st["key"] = cp
+                if st["set"] is not None:
+                    st["set"] = handed_over(st["set"], op[len("continue_with_"):]) or st["set"]
         ka = call(lambda: key.kid)
         out["kid_after"] = (ka.value if ka.ok else f"<raises {ka.etype}>") if op != "kid" else out["kid"]
         ta = call(key.thumbprint)
@@ -316,6 +334,8 @@ class KidModel:
         if kid is not None and kid != expected_kid:
             vs.append(viol(f"kid is not the {'explicit kid' if explicit is not None else 'thumbprint'} after {op} [{f}]",
                            f"history {hist + (op,)}: kid={kid!r}, expected {expected_kid!r}"))
+        if explicit is not None and kid is None:
+            vs.append(viol(f"the kid the key was given is gone after {op} [{f}]", f"history {hist + (op,)}: kid None, given {explicit!r}"))
         seen = [k for k in st["kids_seen"] if k is not None]
         if seen and (kid is None or any(k != seen[0] for k in seen)):
             vs.append(viol(f"kid overwritten or lost after {op} [{f}]", f"history {hist + (op,)}: kids over time {st['kids_seen']}"))
